@@ -269,10 +269,10 @@ PROPS = {
         'assumptions': [],
     },
     'C02': {
-        'lean_targets': ['Cqos.Props.C02', 'Cqos.Facts.GluePrioV2', 'Cqos.Facts.GluePrioV1'],
+        'lean_targets': ['Cqos.Props.C02', 'Cqos.Facts.GluePrioV2', 'Cqos.Facts.GluePrioV1', 'Cqos.Props.C01s'],
         'facts': True,
         'theorems': ['Cqos.C02.step_hinv', 'Cqos.C02.run_hinv', 'Cqos.C02.c02_fifo', 'Cqos.C02.c02_v2_no_drop',
-                     'Cqos.C02.c02_subsequence', 'Cqos.C02.c02_tag', 'Cqos.C02.c02_simple', 'Cqos.Facts.gluePrioV2', 'Cqos.Facts.gluePrioV1'],
+                     'Cqos.C02.c02_subsequence', 'Cqos.C02.c02_tag', 'Cqos.C02.c02_simple', 'Cqos.Facts.gluePrioV2', 'Cqos.Facts.gluePrioV1', 'Cqos.C01.c02_simple_v2'],
         'runs': [{'cmd': 'stepper', 'args': ['-family', 'mixed']}, {'cmd': 'stepper', 'args': ['-family', 'terminate']},
                  {'cmd': 'stepper', 'args': ['-family', 'dynamic']},
                  {'cmd': 'blackbox', 'args': ['-scenario', 'prio2,prio1']}],
@@ -282,7 +282,9 @@ PROPS = {
                        'action list and every divider: per input channel, delivered ++ still-queued = written (no loss, duplication, '
                        'reordering, nothing invented) whenever no send was aborted, which is always the case in v2; in general the '
                        'deliveries are an in-order sub-sequence of what was received; every delivery carries the priority under which '
-                       'the channel it was received from is registered at that moment and is the oldest waiting item of that channel'),
+                       'the channel it was received from is registered at that moment and is the oldest waiting item of that channel; '
+                       'simplified v2 discipline (layered machine): the Handle calls made so far are exactly the delivered items picked '
+                       'up, once each and in order, and at termination all of them (c02_simple_v2)'),
         'level_note': 'trusted: correspondence by differential stepping (exact equality of actual/tactic/strategic/priorities/drained/output after each op); unbuffered inputs only in their deterministic states; New/main/loop glue by black-box runs and facts',
         'rule': 'stepper scripts (families mixed, terminate, dynamic); the monitor matches every delivered item against the per-channel written sequence',
         'trusted_base': ['Go channels as FIFO queues'],
